@@ -11,6 +11,8 @@ REQUIRED = ["children", "parents", "reach:op:page", "reach:op:links", "reach:op:
 OUTSIDE = ["more than 4 pool LRUs, depth more than 5 stems, more than 4 requests"]
 
 POOL = [{"hosts": 2}, {"extend": 0, "paths": 1}, {"extend": 1, "paths": 1}, {"hosts": 2, "paths": 1}]
+# three sibling path stems under one domain (every 3-node BST shape arises from the symbolic byte order), one of them deeper
+WIDE = [{"hosts": 2}, {"extend": 0, "paths": 1}, {"extend": 0, "paths": 1}, {"extend": 0, "paths": 1}, {"extend": 3, "paths": 1}]
 
 
 def levels(tier):
@@ -22,11 +24,19 @@ def levels(tier):
             {"name": "n3", "n": 3, "alphabet": ["page", "we", "addprefix"], "defaults": ["never"], "pool": POOL[:3]},
             {"name": "tpl-n2", "n": 2, "prelude": [["links", [[2, 3], [3, 1]]]], "alphabet": ["we", "addprefix", "moveprefix", "rule"],
              "rule_patterns": ["path1"], "defaults": ["never"]},
+            {"name": "wide-n2", "n": 2, "prelude": [["page", 1, False], ["we", [[0, 3]]], ["page", 2, False]], "alphabet": ["we", "addprefix", "page"],
+             "defaults": ["never"], "pool": WIDE},
+            {"name": "chain-n1", "n": 1, "prelude": [["we", [[0, 1]]], ["we", [[0, 2], [0, 3]]]], "alphabet": ["we", "addprefix", "page"],
+             "defaults": ["never"], "pool": POOL[:3]},
         ]
     return [
         {"name": "n2", "n": 2, "alphabet": alpha, "links_batch": 2, "rule_patterns": ["path1", "path2", "subdomain"], "defaults": ["domain", "never", "path1"]},
         {"name": "n3", "n": 3, "alphabet": alpha, "links_batch": 1, "rule_patterns": ["path1"], "defaults": ["domain", "never"]},
-        {"name": "n4", "n": 4, "alphabet": ["page", "we", "addprefix", "moveprefix"], "defaults": ["never"]},
+        {"name": "n4", "n": 4, "alphabet": ["page", "we", "addprefix", "moveprefix"], "defaults": ["never"], "pool": POOL[:3]},
+        {"name": "wide-n3", "n": 3, "prelude": [["page", 1, False], ["we", [[0, 3]]], ["page", 2, False]], "alphabet": ["we", "addprefix", "page", "moveprefix"],
+         "defaults": ["never"], "pool": WIDE},
+        {"name": "chain-n2", "n": 2, "prelude": [["we", [[0, 1]]], ["we", [[0, 2], [0, 3]]]], "alphabet": ["we", "addprefix", "page", "moveprefix", "delwe"],
+         "defaults": ["never"], "pool": POOL},
     ]
 
 
